@@ -6,7 +6,7 @@ documented behaviour of the function on the abstract values of the slot interpre
 One line of justification per entry is kept in MODEL_DOC (printed into the evidence).
 """
 from .zone import Term, fresh
-from .state import (MOVED, UNIT, TRUE, FALSE, I, OPTION, RESULT, CFLOW, NONE, some)
+from .state import (freeze, MOVED, UNIT, TRUE, FALSE, I, OPTION, RESULT, CFLOW, NONE, some)
 from . import slots
 from .slots import Unproven
 
@@ -254,7 +254,7 @@ def m_iter(E, st, fid, t, args, dest_ty):
     if dest_ty and dest_ty.get('k') == 'adt' and dest_ty['args']:
         e = dest_ty['args'][0]
         ety = {'k': 'ref', 'mut': 'mut' in t['callee']['name'], 'to': e}
-    return ret(st, ('opqit', E.tag_of(args[0]), ety))
+    return ret(st, ('opqit', E.tag_of(args[0]), freeze(ety)))
 
 
 @model('core::slice::<impl [T]>::len', 'number of elements of the slice')
@@ -387,14 +387,17 @@ def m_sliceit_size_hint(E, st, fid, t, args, dest_ty):
         'core::iter::range::<impl core::iter::traits::iterator::Iterator for core::ops::range::Range<A>>::next'],
        'next(): slice iterators yield each remaining element once, front to back; adaptors as documented')
 def m_next(E, st, fid, t, args, dest_ty):
-    return E.iter_next(st, args[0][2], fid)
+    ity = None
+    if dest_ty and dest_ty.get('k') == 'adt' and dest_ty['path'] == OPTION and dest_ty['args']:
+        ity = dest_ty['args'][0]
+    return E.iter_next(st, args[0][2], fid, ity)
 
 
 def _field_ptr(E, st, ptr, i):
     return E.extend(st, ptr, i)
 
 
-def ad_range_next(E, st, ptr, v, fid):
+def ad_range_next(E, st, ptr, v, fid, item_ty=None):
     a, b = v[3]
     if a[0] != 'int' or b[0] != 'int':
         raise Unproven('Range of non-integers')
@@ -414,7 +417,7 @@ def ad_range_next(E, st, ptr, v, fid):
 ADAPTER_NEXT[RANGE] = ad_range_next
 
 
-def ad_map_next(E, st, ptr, v, fid):
+def ad_map_next(E, st, ptr, v, fid, item_ty=None):
     out = []
     for kind, s, opt in E.iter_next(st, _field_ptr(E, st, ptr, 0), fid):
         if kind == 'unwind':
@@ -432,7 +435,7 @@ def ad_map_next(E, st, ptr, v, fid):
 ADAPTER_NEXT[MAP_AD] = ad_map_next
 
 
-def ad_enumerate_next(E, st, ptr, v, fid):
+def ad_enumerate_next(E, st, ptr, v, fid, item_ty=None):
     out = []
     for kind, s, opt in E.iter_next(st, _field_ptr(E, st, ptr, 0), fid):
         if kind == 'unwind':
@@ -452,7 +455,7 @@ def ad_enumerate_next(E, st, ptr, v, fid):
 ADAPTER_NEXT[ENUMERATE] = ad_enumerate_next
 
 
-def ad_zip_next(E, st, ptr, v, fid):
+def ad_zip_next(E, st, ptr, v, fid, item_ty=None):
     out = []
     for kind, s, oa in E.iter_next(st, _field_ptr(E, st, ptr, 0), fid):
         if kind == 'unwind':
@@ -477,7 +480,7 @@ def ad_zip_next(E, st, ptr, v, fid):
 ADAPTER_NEXT[ZIP] = ad_zip_next
 
 
-def ad_chain_next(E, st, ptr, v, fid):
+def ad_chain_next(E, st, ptr, v, fid, item_ty=None):
     out = []
     a = E.load(st, _field_ptr(E, st, ptr, 0))
     if a[0] == 'adt' and a[1] == OPTION and a[2] == 1:
@@ -491,19 +494,19 @@ def ad_chain_next(E, st, ptr, v, fid):
                     out.append(('ret', s2, some(c[1])))
                 else:
                     E.store(s2, _field_ptr(E, s2, ptr, 0), NONE)
-                    out.extend(ad_chain_next(E, s2, ptr, E.load(s2, ptr), fid))
+                    out.extend(ad_chain_next(E, s2, ptr, E.load(s2, ptr), fid, item_ty))
         return out
     b = E.load(st, _field_ptr(E, st, ptr, 1))
     if b[0] == 'adt' and b[1] == OPTION and b[2] == 1:
         bp = E.extend(st, _field_ptr(E, st, ptr, 1), 0)
-        return E.iter_next(st, bp, fid)
+        return E.iter_next(st, bp, fid, item_ty)
     return ret(st, NONE)
 
 
 ADAPTER_NEXT[CHAIN] = ad_chain_next
 
 
-def ad_cloned_next(E, st, ptr, v, fid):
+def ad_cloned_next(E, st, ptr, v, fid, item_ty=None):
     out = []
     for kind, s, opt in E.iter_next(st, _field_ptr(E, st, ptr, 0), fid):
         if kind == 'unwind':
@@ -525,7 +528,7 @@ ADAPTER_NEXT[CLONED] = ad_cloned_next
 ADAPTER_NEXT[COPIED] = ad_cloned_next
 
 
-def ad_rev_next(E, st, ptr, v, fid):
+def ad_rev_next(E, st, ptr, v, fid, item_ty=None):
     inner = E.load(st, _field_ptr(E, st, ptr, 0))
     if inner[0] == 'sliceit':
         _, mid, fr, bk, mut = inner
@@ -541,13 +544,13 @@ def ad_rev_next(E, st, ptr, v, fid):
         if st.zone.sat:
             out.append(('ret', st, NONE))
         return out
-    return E.iter_next(st, _field_ptr(E, st, ptr, 0), fid)
+    return E.iter_next(st, _field_ptr(E, st, ptr, 0), fid, item_ty)
 
 
 ADAPTER_NEXT[REV] = ad_rev_next
 
 
-def ad_flatten_next(E, st, ptr, v, fid):
+def ad_flatten_next(E, st, ptr, v, fid, item_ty=None):
     # only used over iterators of Option<..> of user data: some elements are skipped
     out = []
     for kind, s, opt in E.iter_next(st, _field_ptr(E, st, ptr, 0), fid):
@@ -560,8 +563,7 @@ def ad_flatten_next(E, st, ptr, v, fid):
             else:
                 if E.sensitive(s2, c[1]):
                     raise Unproven('flatten over slot storage')
-                inner_ty = None
-                item = E.mk_unknown(s2, _flatten_item_ty(c[1]), ('flat',), E.gs_of(st, fid))
+                item = E.mk_unknown(s2, item_ty, ('flat',), E.gs_of(st, fid))
                 out.append(('ret', s2, some(item)))
     return out
 
@@ -852,7 +854,7 @@ def m_count(E, st, fid, t, args, dest_ty):
 def m_chain_size_hint(E, st, fid, t, args, dest_ty):
     lo = fresh('u')
     st.zone.touch(lo)
-    return ret(st, ('tuple', (I(lo), ('unk', {'k': 'adt', 'path': OPTION, 'args': [{'k': 'prim', 'name': 'usize'}]}, ('hint',)))))
+    return ret(st, ('tuple', (I(lo), ('unk', freeze({'k': 'adt', 'path': OPTION, 'args': [{'k': 'prim', 'name': 'usize'}]}), ('hint',)))))
 
 
 @model(IT + 'collect', 'FromIterator::from_iter(self)')
